@@ -44,6 +44,10 @@ fn entry_details_from_metadata(m: std::fs::Metadata, path: &Path) -> Result<Entr
             Ok(m) => m,
             Err(err) => return Err(format!("Unknown modified time for '{}': {err}", path.display())),
         };
+        // The modified time is sent between boss and doer as the time since the Unix epoch, so earlier times can't be represented.
+        if modified_time < std::time::UNIX_EPOCH {
+            return Err(format!("Modified time of '{}' is before 1970, which is not supported", path.display()));
+        }
 
         Ok(EntryDetails::File {
             modified_time,
